@@ -147,9 +147,28 @@ def do_norm(c):
     return out
 
 
-def do_equiv(c):
+def version_args(c):
+    """the public ways of naming the STIX version: "ver" in {"2.0", "2.1"} handed as keyword (form "kw", the
+    default of this worker), positionally (form "pos"), or not at all (form "default": the library's default)"""
+    ver, form = c.get("ver", "2.1"), c.get("form", "kw")
+    if form == "default":
+        return (), {}
+    if form == "pos":
+        return (ver,), {}
+    return (), {"stix_version": ver}
+
+
+def do_valid(c):
     try:
-        r = eqp.equivalent_patterns(c["p"], c["q"], stix_version="2.1")
+        return {"valid": not run_validator(c["p"], stix_version=c.get("ver", "2.1"))}
+    except Exception as e:  # noqa: BLE001
+        return {"valid": False, "validator_exc": exc_info(e)}
+
+
+def do_equiv(c):
+    a, kw = version_args(c)
+    try:
+        r = eqp.equivalent_patterns(c["p"], c["q"], *a, **kw)
     except Exception as e:  # noqa: BLE001
         return exc_info(e)
     if r is True or r is False:
@@ -160,8 +179,9 @@ def do_equiv(c):
 def do_find(c):
     ps = list(c["ps"])
     tagged = [TaggedStr(s, i) for i, s in enumerate(ps)]
+    a, kw = version_args(c)
     try:
-        res = list(eqp.find_equivalent_patterns(c["p"], tagged, stix_version="2.1"))
+        res = list(eqp.find_equivalent_patterns(c["p"], tagged, *a, **kw))
     except Exception as e:  # noqa: BLE001
         return exc_info(e)
     idx = []
@@ -182,7 +202,7 @@ class TaggedStr(str):
         return o
 
 
-OPS = {"norm": do_norm, "equiv": do_equiv, "find": do_find}
+OPS = {"norm": do_norm, "equiv": do_equiv, "find": do_find, "valid": do_valid}
 CASE_SECONDS = 20
 SLOW_AFTER = 3          # after this many timeouts the remaining cases get SHORT_SECONDS each
 SHORT_SECONDS = 3
